@@ -32,32 +32,42 @@ Definition ok_disc (d : disc) : Prop :=
 Lemma Exposed_R_false R g k v t0 : Exposed R g k v t0 -> R g = false.
 Proof. induction 1; auto. Qed.
 
-(* one disclosure against the current view *)
+(* one disclosure against the current view: either nothing happens, or it is placed exactly once *)
 Lemma step_spec R d path :
   closedR R t -> ok_disc d -> R (d_digest d) = false ->
   (restore1 129 d path (view R t) = Ok (view R t, [], false) /\ ~ Exposed R (d_digest d) (d_key d) (d_val d) t) \/
-  (exists ps, restore1 129 d path (view R t) = Ok (view (Radd R (d_digest d)) t, ps, true) /\ closedR (Radd R (d_digest d)) t).
+  (exists p, restore1 129 d path (view R t) = Ok (view (Radd R (d_digest d)) t, [(p, d)], true) /\ closedR (Radd R (d_digest d)) t /\
+             Exposed R (d_digest d) (d_key d) (d_val d) t).
 Proof.
   intros Hc Hok HR.
   destruct (occurs (d_digest d) (view R t)) eqn:Eo.
   - destruct Hok as [Hnode|Hfor].
     + destruct (visible_cases H enc R (d_digest d) t Hwf Hnd Eo (IsNode_hdigs H enc _ _ _ _ Hnode)) as [HRt|(k & v & Hex)]; [congruence|].
       destruct (IsNode_fun H enc _ _ _ _ _ _ Hndh (Exposed_IsNode H enc _ _ _ _ _ Hex) Hnode) as [-> ->].
-      right. destruct (restore1_exposed H enc show_nat t Hwf 129 path R _ _ _ d Hnd Hndh Hc Hheight Hex eq_refl eq_refl eq_refl) as [ps Hps].
-      exists ps. split; [assumption|]. eapply closedR_add; eauto.
+      right. destruct (restore1_exposed H enc show_nat t Hwf 129 R _ _ _ d Hnd Hndh Hc Hheight Hex eq_refl eq_refl eq_refl) as [suffix Hps].
+      exists (path ++ suffix)%string. split; [apply Hps|]. split; [eapply closedR_add; eauto|assumption].
     + exfalso. apply Hfor. eapply occurs_view; eauto.
   - left. split.
     + apply restore1_no_occ; [apply sdwf_view; assumption|assumption|].
       pose proof (height_view H enc R t Hwf). lia.
     + intros Hex.
-      destruct (restore1_exposed H enc show_nat t Hwf 129 path R _ _ _ d Hnd Hndh Hc Hheight Hex eq_refl eq_refl eq_refl) as [ps Hps].
-      rewrite restore1_no_occ in Hps; [discriminate|apply sdwf_view; assumption|assumption|].
+      destruct (restore1_exposed H enc show_nat t Hwf 129 R _ _ _ d Hnd Hndh Hc Hheight Hex eq_refl eq_refl eq_refl) as [suffix Hps].
+      specialize (Hps path). rewrite restore1_no_occ in Hps; [discriminate|apply sdwf_view; assumption|assumption|].
       pose proof (height_view H enc R t Hwf). lia.
 Qed.
 
+(* what is recorded about a placement: the disclosure came from the work list, was exposed in some state
+   between R and R', and is opened in R' *)
+Definition placed_ok (R R' : Rset) (todo : list disc) (pd : dpath) : Prop :=
+  In (snd pd) todo /\ R' (d_digest (snd pd)) = true /\
+  exists R1, (forall g, R g = true -> R1 g = true) /\ (forall g, R1 g = true -> R' g = true) /\
+             Exposed R1 (d_digest (snd pd)) (d_key (snd pd)) (d_val (snd pd)) t.
+
+Definition pdig (pd : dpath) : string := d_digest (snd pd).
+
 Lemma pass_spec : forall todo R ps,
   closedR R t -> (forall d, In d todo -> ok_disc d /\ R (d_digest d) = false) -> NoDup (map d_digest todo) ->
-  exists R' ps' rem b, pass todo (view R t) ps = Ok (view R' t, ps', rem, b) /\
+  exists R' placed rem b, pass todo (view R t) ps = Ok (view R' t, (ps ++ placed)%list, rem, b) /\
     closedR R' t /\
     (forall g, R' g = true -> R g = true \/ In g (map d_digest todo)) /\
     (forall g, R g = true -> R' g = true) /\
@@ -65,21 +75,22 @@ Lemma pass_spec : forall todo R ps,
     (forall d, In d rem -> In d todo /\ R' (d_digest d) = false) /\
     NoDup (map d_digest rem) /\
     (b = false -> R' = R /\ rem = todo /\ forall d, In d todo -> ~ Exposed R (d_digest d) (d_key d) (d_val d) t) /\
-    (b = true -> List.length rem < List.length todo).
+    (b = true -> List.length rem < List.length todo) /\
+    Forall (placed_ok R R' todo) placed /\ NoDup (map pdig placed).
 Proof.
   induction todo as [|d r IH]; intros R ps Hc Hall Hnd'.
-  - exists R, ps, [], false. cbn. split; [reflexivity|]. split; [assumption|]. split; [intros g Hg; left; assumption|].
+  - exists R, [], [], false. cbn. rewrite app_nil_r. split; [reflexivity|]. split; [assumption|]. split; [intros g Hg; left; assumption|].
     split; [auto|]. split; [intros ? []|]. split; [intros ? []|]. split; [constructor|].
-    split; [intros _; repeat split; auto; intros ? []|discriminate].
+    split; [intros _; repeat split; auto; intros ? []|]. split; [discriminate|]. split; constructor.
   - cbn [map] in Hnd'. inversion Hnd' as [|? ? Hni Hnd'']; subst.
     destruct (Hall d (or_introl eq_refl)) as [Hok HRd].
     cbn [Model2.pass].
-    destruct (step_spec R d "" Hc Hok HRd) as [[Hr Hnex]|(ps1 & Hr & Hc1)].
+    destruct (step_spec R d "" Hc Hok HRd) as [[Hr Hnex]|(p1 & Hr & Hc1 & Hex1)].
     + (* not placed: stays pending, state unchanged *)
-      rewrite Hr. cbn [bind].
-      destruct (IH R (ps ++ [])%list Hc (fun d' Hd' => Hall d' (or_intror Hd')) Hnd'')
-        as (R' & ps' & rem & b & Hp & Hc' & Hsub & Hmono & Hcov & Hrem & Hndr & Hb0 & Hb1).
-      rewrite Hp. cbn [bind]. exists R', ps', (d :: rem), b. cbn [orb]. split; [reflexivity|]. split; [assumption|].
+      rewrite Hr. cbn [bind]. rewrite app_nil_r.
+      destruct (IH R ps Hc (fun d' Hd' => Hall d' (or_intror Hd')) Hnd'')
+        as (R' & placed & rem & b & Hp & Hc' & Hsub & Hmono & Hcov & Hrem & Hndr & Hb0 & Hb1 & Hpl & Hndp).
+      rewrite Hp. cbn [bind]. exists R', placed, (d :: rem), b. cbn [orb]. split; [reflexivity|]. split; [assumption|].
       split; [intros g Hg; destruct (Hsub g Hg); [left|right; right]; assumption|].
       split; [assumption|].
       split; [intros d' [<-|Hd']; [left; left; reflexivity|destruct (Hcov d' Hd'); [left; right|right]; assumption]|].
@@ -93,15 +104,20 @@ Proof.
         apply in_map_iff. exists d'. split; [assumption|]. apply (Hrem d' Hd'). }
       split.
       { intros ->. destruct (Hb0 eq_refl) as (-> & -> & Hne). repeat split; auto. intros d' [<-|Hd']; auto. }
+      split.
       { intros ->. specialize (Hb1 eq_refl). cbn. lia. }
+      split; [|assumption].
+      eapply Forall_impl; [|exact Hpl]. intros pd (Hin & HR' & R1 & H1 & H2 & Hex). split; [right; assumption|]. split; [assumption|].
+      exists R1. auto.
     + (* placed *)
       rewrite Hr. cbn [bind].
       assert (Hall1 : forall d', In d' r -> ok_disc d' /\ Radd R (d_digest d) (d_digest d') = false).
       { intros d' Hd'. destruct (Hall d' (or_intror Hd')) as [Ho HR']. split; [assumption|].
         rewrite Radd_other; [assumption|]. intros Hq. apply Hni. rewrite <- Hq. apply in_map. assumption. }
-      destruct (IH (Radd R (d_digest d)) (ps ++ ps1)%list Hc1 Hall1 Hnd'')
-        as (R' & ps' & rem & b & Hp & Hc' & Hsub & Hmono & Hcov & Hrem & Hndr & Hb0 & Hb1).
-      rewrite Hp. cbn [bind]. exists R', ps', rem, true. cbn [orb]. split; [reflexivity|]. split; [assumption|].
+      destruct (IH (Radd R (d_digest d)) (ps ++ [(p1, d)])%list Hc1 Hall1 Hnd'')
+        as (R' & placed & rem & b & Hp & Hc' & Hsub & Hmono & Hcov & Hrem & Hndr & Hb0 & Hb1 & Hpl & Hndp).
+      rewrite Hp. cbn [bind]. exists R', ((p1, d) :: placed), rem, true. cbn [orb].
+      split; [rewrite <- app_assoc; reflexivity|]. split; [assumption|].
       split.
       { intros g Hg. destruct (Hsub g Hg) as [Ha|Hin]; [|right; right; assumption].
         unfold Radd in Ha. destruct (String.eqb_spec g (d_digest d)); [right; left; congruence|left; exact Ha]. }
@@ -111,9 +127,19 @@ Proof.
       split; [intros d' Hd'; destruct (Hrem d' Hd'); split; [right|]; assumption|].
       split; [assumption|].
       split; [discriminate|].
-      intros _. destruct b.
-      * specialize (Hb1 eq_refl). cbn. lia.
-      * destruct (Hb0 eq_refl) as (_ & -> & _). cbn. lia.
+      split.
+      { intros _. destruct b.
+        * specialize (Hb1 eq_refl). cbn. lia.
+        * destruct (Hb0 eq_refl) as (_ & -> & _). cbn. lia. }
+      split.
+      { constructor.
+        - split; [left; reflexivity|]. split; [apply Hmono; apply Radd_same|].
+          exists R. split; [auto|]. split; [intros g Hg; apply Hmono; apply Radd_mono; assumption|exact Hex1].
+        - eapply Forall_impl; [|exact Hpl]. intros pd (Hin & HR' & R1 & H1 & H2 & Hex). split; [right; assumption|]. split; [assumption|].
+          exists R1. split; [intros g Hg; apply H1; apply Radd_mono; assumption|]. split; assumption. }
+      { cbn [map]. constructor; [|assumption]. intros Hin. apply in_map_iff in Hin as [pd [Hq Hpd]].
+        rewrite Forall_forall in Hpl. destruct (Hpl pd Hpd) as (Hinr & _). apply Hni. unfold pdig in Hq. cbn [snd] in Hq.
+        rewrite <- Hq. apply in_map. assumption. }
 Qed.
 
 Variable L : list disc.
@@ -125,26 +151,37 @@ Proof. intros Hd. unfold own. apply existsb_exists. exists d. split; [assumption
 Lemma own_inv g : own g = true -> exists d, In d L /\ d_digest d = g.
 Proof. unfold own. intros Ho. apply existsb_exists in Ho as [d [Hd Hq]]. apply String.eqb_eq in Hq. eauto. Qed.
 
+Lemma placed_ok_weaken R R' R'' todo todo' pd :
+  (forall g, R'' g = true -> R g = true) -> (forall g, R' g = true -> own g = true) ->
+  (forall d, In d todo -> In d todo') ->
+  placed_ok R R' todo pd -> placed_ok R'' own todo' pd.
+Proof.
+  intros H1 H2 H3 (Hin & HR' & R1 & Ha & Hb & Hex). split; [auto|]. split; [auto|]. exists R1. split; [auto|]. split; [auto|assumption].
+Qed.
+
 Lemma passes_spec : forall fuel pending R ps,
   List.length pending < fuel -> closedR R t ->
   (forall d, In d pending -> R (d_digest d) = false) -> NoDup (map d_digest pending) ->
   (forall g, R g = true -> own g = true) -> (forall d, In d pending -> In d L) ->
   (forall d, In d L -> In d pending \/ R (d_digest d) = true) ->
-  exists ps', passes fuel pending (view R t) ps = Ok (view own t, ps').
+  exists placed, passes fuel pending (view R t) ps = Ok (view own t, (ps ++ placed)%list) /\
+                 Forall (placed_ok R own pending) placed /\ NoDup (map pdig placed).
 Proof.
   induction fuel as [|fuel IH]; intros pending R ps Hfuel Hc HRp Hndp Hsubo HpL Hcover; [lia|].
   cbn [Model2.passes].
   assert (Hall : forall d, In d pending -> ok_disc d /\ R (d_digest d) = false).
   { intros d Hd. split; [|auto]. rewrite Forall_forall in HLok. auto. }
-  destruct (pass_spec pending R ps Hc Hall Hndp) as (R' & ps' & rem & b & Hp & Hc' & Hsub & Hmono & Hcov & Hrem & Hndr & Hb0 & Hb1).
+  destruct (pass_spec pending R ps Hc Hall Hndp) as (R' & placed1 & rem & b & Hp & Hc' & Hsub & Hmono & Hcov & Hrem & Hndr & Hb0 & Hb1 & Hpl1 & Hnd1).
   rewrite Hp. cbn [bind].
   assert (Hsubo' : forall g, R' g = true -> own g = true).
   { intros g Hg. destruct (Hsub g Hg) as [|Hin]; [auto|]. apply in_map_iff in Hin as [d [<- Hd]]. apply own_in. auto. }
   assert (Hcover' : forall d, In d L -> In d rem \/ R' (d_digest d) = true).
   { intros d Hd. destruct (Hcover d Hd) as [Hdp|HRt]; [apply Hcov; assumption|right; apply Hmono; assumption]. }
+  assert (Hpl1' : Forall (placed_ok R own pending) placed1).
+  { eapply Forall_impl; [|exact Hpl1]. intros pd. apply placed_ok_weaken; auto. }
   destruct (negb b || match rem with [] => true | _ :: _ => false end) eqn:Eexit.
   - (* the loop stops: nothing presented is exposed any more *)
-    exists ps'. f_equal. f_equal. apply view_fix.
+    exists placed1. split; [|split; assumption]. f_equal. f_equal. apply view_fix.
     + intros g k v Hex. destruct (own g) eqn:Eo; [exfalso|reflexivity].
       apply own_inv in Eo as [d [Hd <-]].
       pose proof (Exposed_R_false _ _ _ _ _ Hex) as HRf.
@@ -160,19 +197,30 @@ Proof.
     + intros g _. apply Hsubo'.
   - (* another pass over what is left *)
     apply orb_false_iff in Eexit as [Eb Er]. apply negb_false_iff in Eb.
-    apply IH; auto.
+    destruct (IH rem R' (ps ++ placed1)%list) as (placed2 & Hp2 & Hpl2 & Hnd2); auto.
     + specialize (Hb1 Eb). lia.
     + intros d Hd. apply (Hrem d Hd).
     + intros d Hd. apply HpL. apply (Hrem d Hd).
+    + exists (placed1 ++ placed2)%list. split; [rewrite app_assoc; exact Hp2|]. split.
+      * apply Forall_app. split; [assumption|].
+        eapply Forall_impl; [|exact Hpl2]. intros pd (Hin & HR' & R1 & Ha & Hb & Hex).
+        split; [apply (Hrem _ Hin)|]. split; [assumption|]. exists R1. split; [intros g Hg; apply Ha; apply Hmono; assumption|]. split; assumption.
+      * rewrite map_app. apply NoDup_app_intro; [assumption|assumption|].
+        intros g Hg1 Hg2. apply in_map_iff in Hg1 as [pd1 [<- Hpd1]]. apply in_map_iff in Hg2 as [pd2 [Hq Hpd2]].
+        rewrite Forall_forall in Hpl1, Hpl2. destruct (Hpl1 _ Hpd1) as (_ & Ht1 & _). destruct (Hpl2 _ Hpd2) as (Hin2 & _).
+        destruct (Hrem _ Hin2) as [_ Hf2]. unfold pdig in *. congruence.
 Qed.
 
 (* T2, tree part: whatever list of well-classified disclosures is presented, in whatever order,
-   the loop ends with exactly the view determined by the set of presented digests *)
+   the loop ends with exactly the view determined by the set of presented digests; every presented
+   disclosure is recorded at most once, and only if it was placed *)
 Theorem restore_all : NoDup (map d_digest L) ->
-  exists ps, passes (S (List.length L)) L (view R0 t) [] = Ok (view own t, ps).
+  exists placed, passes (S (List.length L)) L (view R0 t) [] = Ok (view own t, placed) /\
+                 Forall (placed_ok R0 own L) placed /\ NoDup (map pdig placed).
 Proof.
-  intros HndL. apply passes_spec; auto.
+  intros HndL. destruct (passes_spec (S (List.length L)) L R0 []) as (placed & Hp & Hpl & Hnd'); auto.
   - apply closedR_none. reflexivity.
   - discriminate.
+  - exists placed. auto.
 Qed.
 End L.
